@@ -200,7 +200,7 @@ def run(ctx):
         okt = inner(ctype) == [0] and 'from_utf8' in calls_in(ctype) and 'expect_primitive' in calls_in(ctype)
         def second_pc(pred):
             return any(t and pred(a) for a, t in o.st.pc)
-        absent = second_pc(lambda a: a[0] == 'is' and a[2] == 'None' and a[1][0] == 'nth' and a[1][3] == 1 and inner(a[1]) == [1])
+        absent = absx.pc_variant(o.st.pc, lambda v: v[0] == 'nth' and v[3] == 1 and inner(v) == [1], 'None') is True
         def id_is(a, n, name):
             return a[0] == 'bin' and a[1] == 'Eq' and a[2][0] == 'field' and a[2][2] == 'id' and inner(a[2]) == [1] \
                 and (a[3] == ('lit', n) or a[3] == ('cast', ('ctor', 'Types::' + name, ()), 'u64'))
@@ -214,8 +214,7 @@ def run(ctx):
             okc = crit[0] == 'not' and len(idx) == 1 and idx[0][2] == ('lit', 0) and inner(idx[0][1]) == [1] and crit[1] == ('bin', 'Eq', idx[0], ('lit', 0))
             if val == ('ctor', 'None', ()):
                 case = 'boolean'
-                ok = okc and second_pc(lambda a: a[0] == 'is' and a[2] == 'None' and a[1][0] == 'nth' and a[1][3] == 2) or okc and \
-                    any((not t) and a[0] == 'is' and a[2] == 'Some' and a[1][0] == 'nth' and a[1][3] == 2 for a, t in o.st.pc)
+                ok = okc and absx.pc_variant(o.st.pc, lambda v: v[0] == 'nth' and v[3] == 2, 'None') is True
             else:
                 case = 'boolean+value'
                 ok = okc and val[0] == 'ctor' and val[1] == 'Some' and inner(val) == [2] and 'expect_primitive' in calls_in(val)
